@@ -385,6 +385,8 @@ def summarise_formatter(fn, label: str) -> FmtSummary:
     return FmtSummary('custom')
 
 
+# calls that map distinct option values to distinct URL text
+LOSSLESS_CALLS = {'quote', 'quote_plus', 'to_iso_datetime', 'str', 'flatten', 'toIsoDuration', 'repr'}
 SPECIAL_CASED = {'videoErrors': 'verr', 'audioErrors': 'aerr', 'videoCorruption': 'vcorrupt'}
 
 
@@ -472,6 +474,39 @@ def r07_1(rep: Report, idx: Index, opts: list[Opt]) -> None:
                          'media endpoint then parses a different value (or fails)', o.node)
             else:
                 rep.ok(rid, construct, 'c:quoting')
+        # (f) a scalar formatter passes its argument to the text through lossless calls only
+        if isinstance(ffn, ast.FunctionDef) and ffn.args.args and 'list' not in ps.returns:
+            from ..termeval import TermEval, module_consts
+            fparam = ffn.args.args[-1].arg
+            paths = [p_ for p_ in TermEval(module_consts(rep.repo.tree(o.rel))).run(ffn, {})
+                     if p_.done == 'return']
+            lossy = None
+            for p_ in paths:
+                txt = getattr(p_.result, 'text', None)
+                if txt is None:
+                    continue
+                try:
+                    e_ = ast.parse(txt, mode='eval').body
+                except SyntaxError:
+                    continue
+                for c_ in ast.walk(e_):
+                    mentions = lambda x: any(isinstance(y, ast.Name) and y.id == fparam for y in ast.walk(x))
+                    if isinstance(c_, ast.Call) and mentions(c_):
+                        cn_ = (call_name(c_) or '').split('.')[-1]
+                        direct = any(mentions(a_) for a_ in c_.args)
+                        if isinstance(c_.func, ast.Attribute) and mentions(c_.func.value):
+                            lossy = c_           # a method of the value itself: value.replace(..), value.lower()
+                        elif direct and cn_ not in LOSSLESS_CALLS:
+                            lossy = c_
+                    elif isinstance(c_, ast.Subscript) and mentions(c_.value):
+                        lossy = c_
+            if lossy is None:
+                rep.ok(rid, construct, 'f:lossless formatter')
+            else:
+                rep.fail(rid, construct, 'f:lossless formatter',
+                         f'{ffn.name} renders `{short(lossy, 70)}`: the value is changed before it is written into '
+                         'the URL by an operation not known to be lossless, so the media endpoint parses a '
+                         'different option value than the manifest was built with', ffn, file=o.rel)
 
 
 def r07_1e(rep: Report, idx: Index) -> None:
